@@ -12,6 +12,9 @@ import traceback
 VERIF = os.path.dirname(os.path.dirname(os.path.abspath(__file__)))
 REPO = os.environ.get("VERIF_REPO", "/repo")
 GUARD = "ORQUESTRA_QUANTUM_VERIF"
+# runs against a scratch copy of the repository (self-tests with seeded changes) must not overwrite the
+# evidence / replay files of /repo itself
+OUT_DIR = VERIF if os.path.realpath(REPO) == "/repo" else os.path.join("/var/tmp", "vf-scratch-out")
 
 EXIT_OK, EXIT_VIOLATION, EXIT_HARNESS = 0, 1, 3
 
@@ -266,12 +269,12 @@ REPRODUCED, NOT_REPRODUCED = 10, 0
 def finish(ctx, replay_in_process=None):
     """Replay candidates, classify, print, write evidence, return exit code."""
     findings = load_findings()
-    os.makedirs(os.path.join(VERIF, "replays"), exist_ok=True)
+    os.makedirs(os.path.join(OUT_DIR, "replays"), exist_ok=True)
     violations, known, notrepro = [], [], []
     seen_known = set()
     max_replays = int(os.environ.get("VERIF_MAX_REPLAYS", "60"))
     for n, c in enumerate(ctx.candidates):
-        path = os.path.join(VERIF, "replays", f"{ctx.pid}-{n}.json")
+        path = os.path.join(OUT_DIR, "replays", f"{ctx.pid}-{n}.json")
         with open(path, "w") as f:
             json.dump({"property": ctx.pid, **c}, f, indent=1, default=str)
         if n >= max_replays:
@@ -371,8 +374,8 @@ def write_evidence(ctx, n_viol, known_ids):
         "wall_s": round(wall, 2),
         "violations": n_viol,
     }
-    os.makedirs(os.path.join(VERIF, "evidence"), exist_ok=True)
-    with open(os.path.join(VERIF, "evidence", f"{ctx.pid}.json"), "w") as f:
+    os.makedirs(os.path.join(OUT_DIR, "evidence"), exist_ok=True)
+    with open(os.path.join(OUT_DIR, "evidence", f"{ctx.pid}.json"), "w") as f:
         json.dump(ev, f, indent=1, default=str)
     print(
         f"[{ctx.pid}] tier={ctx.tier} instances={ctx.instances} ground={ctx.ground_instances} paths={ctx.paths} "
